@@ -97,6 +97,19 @@ fn to_position(file: &File, lc: LineCol) -> lsp_types::Position {
     }
 }
 
+/// The path of a document. A document that is not a file (an editor's unsaved 'untitled:Untitled-1') has no path: it
+/// gets one that no file of a project can have, so it is simply not part of any project.
+pub(crate) trait DocumentPath {
+    fn document_path(&self) -> PathBuf;
+}
+
+impl DocumentPath for Url {
+    fn document_path(&self) -> PathBuf {
+        self.to_file_path()
+            .unwrap_or_else(|_| PathBuf::from(self.as_str()))
+    }
+}
+
 fn to_range(s: SpanLoc) -> lsp_types::Range {
     lsp_types::Range {
         start: to_position(&s.file, s.begin),
@@ -369,7 +382,7 @@ impl LspContext {
         analysis: &'a Analysis,
         pos: &'a TextDocumentPositionParams,
     ) -> Vec<(&'a DefinitionType, &'a Definition)> {
-        let path = pos.text_document.uri.to_file_path().unwrap();
+        let path = pos.text_document.uri.document_path();
         let line_col = self.to_line_col(&path, &pos.position);
         analysis.find(path, line_col)
     }
